@@ -11,28 +11,17 @@ namespace Z.Props.C10Hash
 open Z.HashTTLExec Z.Header
 open Z.Ref (get put del scan Sorted get_put get_del put_sorted del_sorted mem_scan)
 open Z.Codec (be64 toU64 ofU64 inI64 be64_length)
-open Z.KVExec (Reply RdRes tooBig stripTs)
+open Z.KVExec (Reply RdRes tooBig stripTs KErr PRes parseInt fmtInt wrap64)
 
-/-- **no resurrection** (hash).  The hash is dead at log time `ts` (size meta absent — never created or HCLEARed —
-    or expired at `ts`), and — the explicit hypothesis — NO field key of version `ts`, the version the new
-    generation gets, is stored for it (every stale field key still stored has another version).  Then HSET /
-    HSETNX at `ts` answers 1 and afterwards, at every read time: exactly the written field is visible
-    (HGET, HGETALL/HKEYS/HVALS), HLEN = 1, the key exists, and it has no TTL. -/
-theorem C10_no_resurrection {m : List KV} (hs : Sorted m) (table k : Bytes) (ok : KeyOk table k)
-    {ts : Int} (hi : inI64 ts) {h : Hdr} {ex : Bool}
-    (hmv : mview m ts table k = .mv h ex) (hdead : notExist h ex = true)
-    (hfresh : ∀ g, get m (fieldK table k ts g) = none)
-    (f v : Bytes) (hb : tooBig v = false) (nx : Bool) :
-    (hset m ts nx table k f v).2 = .int 1 ∧
-    ∀ (now : Int),
-      (∀ g, hget (hset m ts nx table k f v).1 now table k g = .ok (if g = f then some v else none)) ∧
-      (∃ l, hscan (hset m ts nx table k f v).1 now table k = .ok l ∧ (f, v) ∈ l ∧ ∀ q ∈ l, q = (f, v)) ∧
-      hlenAt (hset m ts nx table k f v).1 now table k = .ok 1 ∧
-      hkeyexist (hset m ts nx table k f v).1 now table k = .ok 1 ∧
-      httl (hset m ts nx table k f v).1 now table k = .ok (-1) := by
-  rw [hset_dead table k f v ts nx h ex hmv hdead (hfresh f) hb]
-  refine ⟨rfl, fun now => ?_⟩
-  dsimp only
+/-- what every reader sees of a freshly renewed hash (`renewed`: size meta of a new generation `ts` with one field, no
+    expiry; NO other field key of version `ts` stored): exactly the written field, HLEN = 1, exists, no TTL -/
+theorem C10_aux_renewed_reads {m : List KV} (hs : Sorted m) (table k : Bytes) (ok : KeyOk table k)
+    {ts : Int} (hi : inI64 ts) (hfresh : ∀ g, get m (fieldK table k ts g) = none) (f v : Bytes) (now : Int) :
+    (∀ g, hget (renewed m table k ts f v) now table k g = .ok (if g = f then some v else none)) ∧
+    (∃ l, hscan (renewed m table k ts f v) now table k = .ok l ∧ (f, v) ∈ l ∧ ∀ q ∈ l, q = (f, v)) ∧
+    hlenAt (renewed m table k ts f v) now table k = .ok 1 ∧
+    hkeyexist (renewed m table k ts f v) now table k = .ok 1 ∧
+    httl (renewed m table k ts f v) now table k = .ok (-1) := by
   have hmv' := mview_renewed hs table k ts hi f v now
   have hlv : liveVer (renewed m table k ts f v) now table k = .ok (some ⟨0, ts, some (be64 (toU64 1))⟩) := by
     simp [liveVer, hmv', notExist]
@@ -74,6 +63,52 @@ theorem C10_no_resurrection {m : List KV} (hs : Sorted m) (table k : Bytes) (ok 
     simp only [newMeta]
     rw [decode_encFixed 0 ts _ (by decide)]
     simp [ttl]
+
+/-- **no resurrection** (hash).  The hash is dead at log time `ts` (size meta absent — never created or HCLEARed —
+    or expired at `ts`), and — the explicit hypothesis — NO field key of version `ts`, the version the new
+    generation gets, is stored for it (every stale field key still stored has another version).  Then HSET /
+    HSETNX at `ts` answers 1 and afterwards, at every read time: exactly the written field is visible
+    (HGET, HGETALL/HKEYS/HVALS), HLEN = 1, the key exists, and it has no TTL. -/
+theorem C10_no_resurrection {m : List KV} (hs : Sorted m) (table k : Bytes) (ok : KeyOk table k)
+    {ts : Int} (hi : inI64 ts) {h : Hdr} {ex : Bool}
+    (hmv : mview m ts table k = .mv h ex) (hdead : notExist h ex = true)
+    (hfresh : ∀ g, get m (fieldK table k ts g) = none)
+    (f v : Bytes) (hb : tooBig v = false) (nx : Bool) :
+    (hset m ts nx table k f v).2 = .int 1 ∧
+    ∀ (now : Int),
+      (∀ g, hget (hset m ts nx table k f v).1 now table k g = .ok (if g = f then some v else none)) ∧
+      (∃ l, hscan (hset m ts nx table k f v).1 now table k = .ok l ∧ (f, v) ∈ l ∧ ∀ q ∈ l, q = (f, v)) ∧
+      hlenAt (hset m ts nx table k f v).1 now table k = .ok 1 ∧
+      hkeyexist (hset m ts nx table k f v).1 now table k = .ok 1 ∧
+      httl (hset m ts nx table k f v).1 now table k = .ok (-1) := by
+  rw [hset_dead table k f v ts nx h ex hmv hdead (hfresh f) hb]
+  exact ⟨rfl, fun now => C10_aux_renewed_reads hs table k ok hi hfresh f v now⟩
+
+/-- HIncrBy asks `hGetRawFieldValue` to check expiry (REGENERATED: its 4th argument), so the model's "field is missing"
+    guard is `notExist` — absent or expired at the log time -/
+theorem C10_hincrby_checks_expiry (h : Hdr) (ex : Bool) :
+    Gen.hincrCheckExpired = true ∧ Gen.hincrFieldMissing ex h.user.isNone = notExist h ex :=
+  ⟨by decide, hincrFieldMissing_eq h ex⟩
+
+/-- **no resurrection, HINCRBY**.  Same hypotheses (the hash is dead at log time `ts`: never created, HCLEARed, or its
+    expiry second is ≤ ⌊ts/1e9⌋; no field key of version `ts` stored).  Then `HINCRBY key f d` at `ts` counts the old
+    value as 0 WHATEVER the dead generation stores under `f` — the reply is `d` —, and afterwards, at every read time:
+    the hash holds exactly the field `f` = the decimal text of `d` (no field of the dead generation comes back),
+    HLEN = 1, the key exists, and it has no TTL (the expiry of the dead generation is gone with it). -/
+theorem C10_hincrby_no_resurrection {m : List KV} (hs : Sorted m) (table k : Bytes) (ok : KeyOk table k)
+    {ts : Int} (hi : inI64 ts) {h : Hdr} {ex : Bool}
+    (hmv : mview m ts table k = .mv h ex) (hdead : notExist h ex = true)
+    (hfresh : ∀ g, get m (fieldK table k ts g) = none)
+    (f : Bytes) (d : Int) (hd : inI64 d) :
+    (hincrby m ts table k f d).2 = .int d ∧
+    ∀ (now : Int),
+      (∀ g, hget (hincrby m ts table k f d).1 now table k g = .ok (if g = f then some (fmtInt d) else none)) ∧
+      (∃ l, hscan (hincrby m ts table k f d).1 now table k = .ok l ∧ (f, fmtInt d) ∈ l ∧ ∀ q ∈ l, q = (f, fmtInt d)) ∧
+      hlenAt (hincrby m ts table k f d).1 now table k = .ok 1 ∧
+      hkeyexist (hincrby m ts table k f d).1 now table k = .ok 1 ∧
+      httl (hincrby m ts table k f d).1 now table k = .ok (-1) := by
+  rw [hincrby_dead table k f ts d h ex hmv hdead (hfresh f) hd]
+  exact ⟨rfl, fun now => C10_aux_renewed_reads hs table k ok hi hfresh f (fmtInt d) now⟩
 
 /-! #### the hypothesis of `C10_no_resurrection` is needed: equal log timestamps, on the executable model -/
 
@@ -264,6 +299,33 @@ theorem C10_hash_expire_persist {m : List KV} {table k : Bytes} {e : Nat} {ver n
     rw [rawExpireAt_encFixed e ver _ _ L.elt, hno]
     simp [hu0, ofU64_toU64 L.vok]
 
+/-- `hSetField` on a hash that is live at log time `ts`: it answers an integer, and the size meta afterwards still
+    carries the expiry second `e` and the generation `ver` (size + 1 for a new field, untouched for an existing one) -/
+theorem C10_aux_hsetField_live {m : List KV} (hs : Sorted m) {table k : Bytes} {e : Nat} {ver n ts : Int}
+    (L : LiveHash m table k e ver n ts) (f v : Bytes) (nx : Bool) :
+    ∃ n' r, (n' = n ∨ n' = n + 1) ∧ (hsetField m ts nx table k f v).2 = .int r ∧
+      get (hsetField m ts nx table k f v).1 (metaK table k) = some (encFixed e ver ++ be64 (toU64 n')) := by
+  have hmv := C10_aux_mview_live L
+  simp only [hsetField, hmv, prepare, notExist, Option.isNone_some, Bool.or_self, Bool.false_eq_true, if_false]
+  cases hg : get m (fieldK table k ver f) with
+  | some old =>
+    refine ⟨n, 0, Or.inl rfl, ?_, ?_⟩
+    · simp only; split <;> rfl
+    · simp only
+      split
+      · exact L.stored
+      · rw [get_put m hs]
+        have : metaK table k ≠ fieldK table k ver f := meta_ne_field table k k ver f
+        simp [this, L.stored]
+  | none =>
+    refine ⟨n + 1, 1, Or.inr rfl, rfl, ?_⟩
+    have hsz : sizeI (some (be64 (toU64 n))) = n := sizeI_be64 n (by have := L.npos.1; omega) L.npos.2
+    have hpos : ¬ (n + 1 ≤ 0) := by have := L.npos.1; omega
+    simp only [hIncrSize, hsz, hpos, if_false]
+    rw [get_put _ (put_sorted hs _ _), get_put m hs]
+    have : metaK table k ≠ fieldK table k ver f := meta_ne_field table k k ver f
+    simp [this, encode]
+
 /-- **modifying keeps, clearing clears** (hash).  HSET / HSETNX on a hash that is live at log time `ts` keep its expiry
     second `e` and its generation `ver` (the size meta is rewritten with size + 1 for a new field, untouched for an
     overwrite); HCLEAR (read clock also before the expiry) deletes the size meta and nothing else, so the next write
@@ -277,31 +339,98 @@ theorem C10_hash_modify_keeps_clear_clears {m : List KV} (hs : Sorted m) {table 
   have hmv := C10_aux_mview_live L
   refine ⟨?_, ?_⟩
   · intro f v nx hb
-    simp only [hset, hb, Bool.false_eq_true, if_false, hmv, prepare, notExist, Option.isNone_some, Bool.or_self]
-    cases hg : get m (fieldK table k ver f) with
-    | some old =>
-      refine ⟨n, Or.inl rfl, ?_⟩
-      simp only
-      split
-      · exact L.stored
-      · rw [get_put m hs]
-        have : metaK table k ≠ fieldK table k ver f := meta_ne_field table k k ver f
-        simp [this, L.stored]
-    | none =>
-      refine ⟨n + 1, Or.inr rfl, ?_⟩
-      have hsz : sizeI (some (be64 (toU64 n))) = n := sizeI_be64 n (by have := L.npos.1; omega) L.npos.2
-      have hpos : ¬ (n + 1 ≤ 0) := by have := L.npos.1; omega
-      simp only [hIncrSize, hsz, hpos, if_false]
-      rw [get_put _ (put_sorted hs _ _), get_put m hs]
-      have : metaK table k ≠ fieldK table k ver f := meta_ne_field table k k ver f
-      simp [this, encode]
+    obtain ⟨n', _, hn', _, hg⟩ := C10_aux_hsetField_live hs L f v nx
+    refine ⟨n', hn', ?_⟩
+    simp only [hset, hb, Bool.false_eq_true, if_false]
+    exact hg
   · intro now hnow
     have L' : LiveHash m table k e ver n now := { L with alive := hnow }
     have hmv' := C10_aux_mview_live L'
     have hsz : sizeI (some (be64 (toU64 n))) = n := sizeI_be64 n (by have := L.npos.1; omega) L.npos.2
     have hn0 : (n == 0) = false := by have := L.npos.1; simp; omega
-    simp [hclear, hlenAt, hmv', hmv, hsz, hn0, notExist]
+    simp [hclear, hlenAt, hmv, hsz, hn0, notExist]
 
+/-- **HINCRBY on a live hash keeps generation and expiry**.  On a hash that is live at log time `ts`, HINCRBY works on
+    the field key of the LIVE generation `ver` (old value = that field's value without its modification time; missing
+    = 0); it either answers an error and leaves the store untouched, or answers an integer and the size meta still
+    carries the expiry second `e` and the generation `ver` (size + 1 for a new field): an increment never renews and
+    never drops the TTL of unexpired data. -/
+theorem C10_hincrby_live_keeps {m : List KV} (hs : Sorted m) {table k : Bytes} {e : Nat} {ver n ts : Int}
+    (L : LiveHash m table k e ver n ts) (f : Bytes) (d : Int) :
+    hincrby m ts table k f d = hincrFinish m ts table k f d (get m (fieldK table k ver f)) ∧
+    ((∃ err, (hincrby m ts table k f d).2 = .err err ∧ (hincrby m ts table k f d).1 = m) ∨
+     (∃ r n', (hincrby m ts table k f d).2 = .int r ∧ (n' = n ∨ n' = n + 1) ∧
+        get (hincrby m ts table k f d).1 (metaK table k) = some (encFixed e ver ++ be64 (toU64 n')))) := by
+  have hmv := C10_aux_mview_live L
+  have hl := hincrby_live table k f ts d _ _ hmv (by simp [notExist])
+  refine ⟨hl, ?_⟩
+  rw [hl]
+  unfold hincrFinish
+  simp only
+  split
+  · exact Or.inl ⟨_, rfl, rfl⟩
+  · exact Or.inl ⟨_, rfl, rfl⟩
+  · rename_i c _
+    obtain ⟨n', r, hn', hr, hg⟩ := C10_aux_hsetField_live hs L f (fmtInt (wrap64 (c + d))) Gen.hincrCheckNX
+    generalize hsf : hsetField m ts Gen.hincrCheckNX table k f (fmtInt (wrap64 (c + d))) = res at hr hg
+    obtain ⟨m', rep⟩ := res
+    simp only at hr hg
+    subst hr
+    exact Or.inr ⟨_, n', rfl, hn', hg⟩
+
+/-- **dead after expiry, HINCRBY**.  The size meta holds an expiry second `e ≠ 0` with `e ≤ ⌊t/1e9⌋`.  Then at every log
+    time `t' ≥ t` — under the hypothesis of `C10_no_resurrection` for the new version `t'` — `HINCRBY key f d` answers
+    `d` (the expired value of `f` is NOT the base of the increment), exactly as on the store without the size meta, and
+    afterwards every reader sees the one field `f = d` of a new generation without TTL. -/
+theorem C10_hincrby_dead_after_expiry {m : List KV} (hs : Sorted m) (table k : Bytes) (ok : KeyOk table k)
+    {e : Nat} {ver : Int} {user : Bytes} (hmeta : get m (metaK table k) = some (encFixed e ver ++ user))
+    (he : e < 4294967296) (he0 : e ≠ 0) {t t' : Int} (ht : 0 < t) (hexp : (e : Int) ≤ t / 1000000000) (htt : t ≤ t')
+    (hi : inI64 t') (hfresh : ∀ g, get m (fieldK table k t' g) = none) (f : Bytes) (d : Int) (hd : inI64 d) :
+    (hincrby m t' table k f d).2 = .int d ∧
+    (hincrby (del m (metaK table k)) t' table k f d).2 = .int d ∧
+    ∀ now,
+      (∀ g, hget (hincrby m t' table k f d).1 now table k g = .ok (if g = f then some (fmtInt d) else none)) ∧
+      hlenAt (hincrby m t' table k f d).1 now table k = .ok 1 ∧
+      httl (hincrby m t' table k f d).1 now table k = .ok (-1) := by
+  have hx : isExpired ⟨e, ofU64 (toU64 ver), some user⟩ t' = true :=
+    (isExpired_iff _ t' (by omega)).mpr ⟨he0, by
+      have : t / 1000000000 ≤ t' / 1000000000 := Int.ediv_le_ediv (by decide) htt
+      show (e : Int) ≤ t' / 1000000000
+      omega⟩
+  have hmv : mview m t' table k = .mv ⟨e, ofU64 (toU64 ver), some user⟩ true := by
+    unfold mview
+    rw [hmeta]
+    simp only
+    rw [decode_encFixed e ver user he]
+    simp only [hx]
+  have hsd := del_sorted hs (metaK table k)
+  have hmvd : mview (del m (metaK table k)) t' table k = .mv fresh false := by
+    unfold mview; rw [get_del m hs]; simp
+  have hfreshd : ∀ g, get (del m (metaK table k)) (fieldK table k t' g) = none := by
+    intro g
+    rw [get_del m hs]
+    have : fieldK table k t' g ≠ metaK table k := fun h => meta_ne_field table k k t' g h.symm
+    simp [this, hfresh g]
+  have A := C10_hincrby_no_resurrection hs table k ok hi hmv (by simp [notExist]) hfresh f d hd
+  have B := C10_hincrby_no_resurrection hsd table k ok hi hmvd (by simp [notExist, fresh]) hfreshd f d hd
+  refine ⟨A.1, B.1, fun now => ?_⟩
+  obtain ⟨a1, _, a3, _, a5⟩ := A.2 now
+  exact ⟨a1, a3, a5⟩
+
+/-! #### equal log timestamps and HINCRBY: the fresh-version hypothesis is needed here too -/
+
+/-- on the cleared hash `wS2` (dead; its stale field `f = "1"` of version `wTs` still stored), at the SAME log timestamp:
+    `HINCRBY h g 5` answers 5 and re-creates the hash with the version it already had — HGETALL shows the stale field
+    again while HLEN = 1; `HINCRBY h f 5` on the stale field itself answers 5 (base 0, correct) but finds the stale field
+    key, so no size meta is written: the increment is stored and INVISIBLE (HLEN 0, HGETALL empty).  Same known finding as
+    `C10_equal_ts_witness` (generation = log timestamp). -/
+theorem C10_equal_ts_witness_hincrby :
+    (hincrby wS2 wTs wTable wKey [103] 5).2 = .int 5 ∧
+    hscan (hincrby wS2 wTs wTable wKey [103] 5).1 1 wTable wKey = .ok [([102], [49]), ([103], [53])] ∧
+    hlenAt (hincrby wS2 wTs wTable wKey [103] 5).1 1 wTable wKey = .ok 1 ∧
+    (hincrby wS2 wTs wTable wKey [102] 5).2 = .int 5 ∧
+    hscan (hincrby wS2 wTs wTable wKey [102] 5).1 1 wTable wKey = .ok [] ∧
+    hlenAt (hincrby wS2 wTs wTable wKey [102] 5).1 1 wTable wKey = .ok 0 := by decide
 
 /-! ### non-vacuity: the hypotheses instantiated on concrete stores of the executable model -/
 
@@ -349,5 +478,61 @@ example : hclear wS1 1 wTs wTable wKey = (del wS1 (metaK wTable wKey), .int 1) :
     have : wS1 = [(fieldK wTable wKey wTs [102], [49] ++ be64 (toU64 wTs)), (metaK wTable wKey, encFixed 0 wTs ++ be64 (toU64 1))] := by
       decide
     rw [this]; exact ⟨by decide, trivial⟩) C10_aux_wS1_live).2 1 (by decide)
+
+
+/-! #### HINCRBY: the hypotheses instantiated -/
+
+/-- the cleared hash `wS2` still stores `f = "1"` of version `wTs`; `HINCRBY h f 5` ONE NANOSECOND LATER answers 5 (not 6)
+    and the new generation holds exactly `f = "5"` — `C10_hincrby_no_resurrection` with all hypotheses discharged -/
+example : (hincrby wS2 7000000001 wTable wKey [102] 5).2 = .int 5 ∧
+    hget (hincrby wS2 7000000001 wTable wKey [102] 5).1 1 wTable wKey [102] = .ok (some [53]) ∧
+    hlenAt (hincrby wS2 7000000001 wTable wKey [102] 5).1 1 wTable wKey = .ok 1 := by
+  have hs : Sorted wS2 := by rw [C10_aux_wS2_eq]; trivial
+  have hfresh : ∀ g, get wS2 (fieldK wTable wKey 7000000001 g) = none := by
+    intro g
+    rw [C10_aux_wS2_eq]
+    have hne : fieldK wTable wKey wTs [102] ≠ fieldK wTable wKey 7000000001 g := fun h =>
+      absurd (field_inj wTable wKey wTs 7000000001 [102] g C10_aux_key_ok.ht C10_aux_key_ok.hk C10_aux_in1 C10_aux_in2 h).1 (by decide)
+    simp [Z.Ref.get, hne]
+  have h := C10_hincrby_no_resurrection hs wTable wKey C10_aux_key_ok (ts := 7000000001) C10_aux_in2 (h := fresh) (ex := false)
+    (by decide) (by decide) hfresh [102] 5 (by unfold inI64; omega)
+  have h1 := (h.2 1).1 [102]
+  have h5 : fmtInt 5 = [53] := by decide
+  rw [if_pos rfl, h5] at h1
+  exact ⟨h.1, h1, (h.2 1).2.2.1⟩
+
+theorem C10_aux_wE_eq :
+    wE = [(fieldK wTable wKey wTs [102], [49] ++ be64 (toU64 wTs)), (metaK wTable wKey, encFixed 8 wTs ++ be64 (toU64 1))] := by
+  decide
+
+/-- the expired hash `wE` (`f = "1"`, expiry second 8) at `wLate` (second 10): `HINCRBY h f 5` answers 5, and the hash is a
+    new generation without TTL — `C10_hincrby_dead_after_expiry` with all hypotheses discharged -/
+example : (hincrby wE wLate wTable wKey [102] 5).2 = .int 5 ∧
+    httl (hincrby wE wLate wTable wKey [102] 5).1 wLate wTable wKey = .ok (-1) := by
+  have hs : Sorted wE := by rw [C10_aux_wE_eq]; exact ⟨by decide, trivial⟩
+  have hin : inI64 wLate := by unfold inI64 wLate; omega
+  have hfresh : ∀ g, get wE (fieldK wTable wKey wLate g) = none := by
+    intro g
+    rw [C10_aux_wE_eq]
+    have hne : fieldK wTable wKey wTs [102] ≠ fieldK wTable wKey wLate g := fun h =>
+      absurd (field_inj wTable wKey wTs wLate [102] g C10_aux_key_ok.ht C10_aux_key_ok.hk C10_aux_in1 hin h).1 (by decide)
+    have hne2 : metaK wTable wKey ≠ fieldK wTable wKey wLate g := meta_ne_field wTable wKey wKey wLate g
+    simp [Z.Ref.get, hne, hne2]
+  have h := C10_hincrby_dead_after_expiry hs wTable wKey C10_aux_key_ok (e := 8) (ver := wTs) (user := be64 (toU64 1))
+    (by rw [C10_aux_wE_eq]; decide) (by decide) (by decide) (t := wLate) (t' := wLate) (by decide) (by decide) (by decide)
+    hin hfresh [102] 5 (by unfold inI64; omega)
+  exact ⟨h.1, (h.2.2 wLate).2.2⟩
+
+/-- on the live hash `wS1` (`f = "1"`): `HINCRBY h f 5` reads the live field (answers 6) and keeps generation `wTs`;
+    on a live hash whose field is not an integer the answer is an error and the store is untouched -/
+example : (hincrby wS1 wTs wTable wKey [102] 5).2 = .int 6 ∧
+    hincrby (hset [] wTs false wTable wKey [102] [118]).1 wTs wTable wKey [102] 5 =
+      ((hset [] wTs false wTable wKey [102] [118]).1, .err .notint) := by decide
+
+example : hincrby wS1 wTs wTable wKey [102] 5 = hincrFinish wS1 wTs wTable wKey [102] 5 (get wS1 (fieldK wTable wKey wTs [102])) :=
+  (C10_hincrby_live_keeps (by
+    have : wS1 = [(fieldK wTable wKey wTs [102], [49] ++ be64 (toU64 wTs)), (metaK wTable wKey, encFixed 0 wTs ++ be64 (toU64 1))] := by
+      decide
+    rw [this]; exact ⟨by decide, trivial⟩) C10_aux_wS1_live [102] 5).1
 
 end Z.Props.C10Hash
